@@ -81,6 +81,14 @@ STMTS = [
     ("nested_for", "must_accept", "for (j = 0; j < 3; j++) { for (k = 0; k < 2; k++) { RxV += RtV; } ReV = RtV; }", [W % "Rx", W % "Re", "REPEAT("]),
     ("if_in_if", "must_accept", "if (PvV) { if (RtV) { ReV = RtV; } RxV = RtV; } else { RyV = RtV; }", [W % "Re", W % "Rx", W % "Ry"]),
     ("stmt_expr", "must_accept", "ReV = ({ int32_t q = RtV; q; });", [W % "Re", 'SETL("q"']),
+    ("void_call", "must_accept", "set_usr_field(bundle, HEX_REG_FIELD_USR_OVF, RtV);", ["hex_set_usr_field("]),
+    ("void_call_postfix_arg", "must_accept", "trap(i++, 0);", ["hex_trap(", 'SETL("i", INC']),
+    ("void_call_call_arg", "must_accept", "set_usr_field(bundle, HEX_REG_FIELD_USR_LPCFG, clz32(RtV));", ["hex_set_usr_field(", "hex_clz32("]),
+    ("void_call_get_set", "must_accept", "set_usr_field(bundle, HEX_REG_FIELD_USR_LPCFG, get_usr_field(bundle, HEX_REG_FIELD_USR_LPCFG) - 1);",
+     ["hex_set_usr_field(", "hex_get_usr_field("]),
+    ("void_call_stmtexpr_arg", "must_accept", "set_usr_field(bundle, HEX_REG_FIELD_USR_OVF, ({ int32_t q = RtV; q; }));", ["hex_set_usr_field(", 'SETL("q"']),
+    ("value_call_unused", "must_accept", "get_usr_field(bundle, HEX_REG_FIELD_USR_LPCFG);", ["hex_get_usr_field("]),
+    ("stmt_expr_three_stmts", "may", "ReV = ({ RxV = 1; RyV = 2; RtV; });", [W % "Re", W % "Rx", W % "Ry"]),
 ]
 EXPRS = [
     ("comma_expr", "must_raise", "(RtV, RsV)", []),
